@@ -67,6 +67,23 @@ def elevate(ctx, p, t, layout):
     ctx.check_eq_vec('endpoint.last', Q[-1], P[-1])
 
 
+@scenario('C08', fns=['helpers.degree_elevation', 'linalg.binomial_coefficient'],
+          quick=[dict(total=D, layout='cartesian') for D in (3, 4, 5, 6)],
+          thorough=[dict(total=D, layout=l) for D in range(2, 10) for l in ('cartesian', 'homogeneous')])
+def elevate_history(ctx, total, layout):
+    """the result of an elevation must not depend on the calls made before it: within ONE run, every (p, t) with
+    p + t == total is elevated in turn (fresh symbolic polygon each), in both orders; each result defines the same curve"""
+    dim = _dims(layout)
+    pairs = [(p, total - p) for p in range(1, total)]
+    for rnd, order in enumerate((pairs, list(reversed(pairs)))):
+        for p, t in order:
+            P = [[ctx.num('H%d_%d_%d_%d' % (rnd, p, i, d)) for d in range(dim)] for i in range(p + 1)]
+            Q = ctx.geomdl('helpers').degree_elevation(p, [list(pt) for pt in P], num=t)
+            ctx.check_true('r%d.p%d.size' % (rnd, p), len(Q) == p + t + 1)
+            want = spec.bernstein_to_monomial(P) + [[0] * dim for _ in range(t)]
+            ctx.check_eq_grid('r%d.p%d.same_curve.monomial' % (rnd, p), spec.bernstein_to_monomial(Q), want)
+
+
 def _red_shapes(tier):
     out = []
     for degree in range(2, 9 if tier == 'quick' else 10):     # degree of the polygon that is reduced (= p + 1)
